@@ -83,8 +83,8 @@ TYPES: list[tuple] = [
     ("BINARY", "bytes", None), ("VARBINARY", "bytes", None),
     ("VARIANT", "json", "any"), ("OBJECT", "json", "object"), ("ARRAY", "json", "array"),
 ]
-PATHS = ["literal", "literal_multi", "pyformat", "qmark", "executemany", "insert_select", "ctas", "clone",
-         "write_pandas", "write_pandas_subset", "write_pandas_permuted", "write_pandas_auto"]
+PATHS = ["literal", "literal_multi", "pyformat", "qmark", "executemany", "insert_select", "ctas", "clone", "insert_select_cast", "ctas_cast",
+         "write_pandas", "write_pandas_subset", "write_pandas_permuted", "write_pandas_auto", "write_pandas_chunked"]
 
 
 def pool(fam: str, extra: Any, r: random.Random) -> list:
@@ -127,6 +127,8 @@ def gen_cases(tier: str, seed: int):
         for ti, (spell, fam, extra) in enumerate(TYPES):
             for path in PATHS:
                 if path == "write_pandas_auto" and fam not in ("int", "str"):
+                    continue
+                if path.endswith("_cast") and fam not in ("int", "dec", "float", "str", "date", "time", "ntz", "bool"):
                     continue
                 pl = pool(fam, extra, r)
                 k = r.randint(5, 8) if tier == "quick" else r.randint(3, 10)
@@ -314,9 +316,10 @@ def run_case(case: dict, env: core.Env) -> None:
     env.cover("type_x_path", f"{spell}/{path}")
     famc = f"{fam}{'' if fam != 'dec' else ('-scale0' if extra[1] == 0 else '-scaled')}"
     form = {"literal": "literal", "literal_multi": "literal", "pyformat": "client-bound", "executemany": "client-bound", "qmark": "qmark",
-            "write_pandas": "write_pandas", "write_pandas_subset": "write_pandas", "write_pandas_permuted": "write_pandas"}.get(path, path)
+            "write_pandas": "write_pandas", "write_pandas_subset": "write_pandas", "write_pandas_permuted": "write_pandas",
+            "write_pandas_chunked": "write_pandas"}.get(path, path)
     DECIMAL_NOTATION[0] = bool(case.get("decimal_notation"))
-    if DECIMAL_NOTATION[0] and fam == "float" and form in ("literal", "insert_select", "ctas", "clone"):
+    if DECIMAL_NOTATION[0] and fam == "float" and form in ("literal", "insert_select", "ctas", "clone", "insert_select_cast", "ctas_cast"):
         form += ":decimal-notation"
     cell = f"{famc}/{form}"
     rows = list(enumerate(vals, start=1))
@@ -334,7 +337,7 @@ def run_case(case: dict, env: core.Env) -> None:
     cur.execute("DROP TABLE IF EXISTS SRC")
     target = "T"
     try:
-        if path in ("insert_select", "ctas", "clone"):
+        if path in ("insert_select", "ctas", "clone", "insert_select_cast", "ctas_cast"):
             cur.execute(f"CREATE TABLE SRC {ddl}")
             if rows:
                 o = core.run_stmt(cur, "INSERT INTO SRC (ID, V) VALUES " + ", ".join(f"({i}, {lit(v, fam)})" for i, v in rows) if fam != "json" else
@@ -344,13 +347,19 @@ def run_case(case: dict, env: core.Env) -> None:
             if path == "insert_select":
                 cur.execute(f"CREATE TABLE T {ddl}")
                 o = core.run_stmt(cur, "INSERT INTO T SELECT ID, V FROM SRC")
+            elif path == "insert_select_cast":
+                # the value passes through a cast to its own type on the way
+                cur.execute(f"CREATE TABLE T {ddl}")
+                o = core.run_stmt(cur, f"INSERT INTO T SELECT ID, V::{spell} FROM SRC")
+            elif path == "ctas_cast":
+                o = core.run_stmt(cur, f"CREATE TABLE T AS SELECT ID, CAST(V AS {spell}) AS V FROM SRC")
             elif path == "ctas":
                 o = core.run_stmt(cur, "CREATE TABLE T AS SELECT * FROM SRC")
             else:
                 o = core.run_stmt(cur, "CREATE TABLE T CLONE SRC")
             if not o["ok"]:
                 return reject(o["exc"], path)
-            if path == "insert_select" and o["rows"] != [(len(rows),)]:
+            if path.startswith("insert_select") and o["rows"] != [(len(rows),)]:
                 env.witness(f"C01/insert-select-count/{cell}", f"{o['rows']} for {len(rows)} rows")
         elif path.startswith("write_pandas"):
             import pandas as pd
@@ -387,6 +396,13 @@ def run_case(case: dict, env: core.Env) -> None:
             elif path == "write_pandas_permuted":
                 df = pd.DataFrame({"EXTRA": ["x"] * len(rows), "V": col, "ID": data["ID"]})
                 args = {}
+            elif path == "write_pandas_chunked":
+                # a frame whose index is not 0..n-1 (as after filtering or sorting), loaded a few rows at a time
+                data["V"] = col
+                data["EXTRA"] = [None] * len(rows)
+                df = pd.DataFrame(data)
+                df.index = [7 + 3 * ((j * 5) % max(len(rows), 1)) for j in range(len(rows))] if len(rows) % 2 else list(range(100, 100 + len(rows)))
+                args = {"chunk_size": 2}
             else:
                 data["V"] = col
                 data["EXTRA"] = [None] * len(rows)
